@@ -166,6 +166,9 @@ pub struct TypeChecker {
     namespace_to_file: HashMap<NamespaceID, FileOrLib>,
     // TODO(ed): This can probably be removed via some trickery
     pub file_to_namespace: HashMap<FileOrLib, NamespaceID>,
+    // The functions whose bodies are being checked right now - a function is not generic inside
+    // its own body.
+    defining: Vec<usize>,
 }
 
 #[derive(Clone, Debug, Copy)]
@@ -198,6 +201,7 @@ impl TypeChecker {
                 .iter()
                 .map(|(a, b)| (b.clone(), a.clone()))
                 .collect(),
+            defining: Vec::new(),
         };
         for var in variables {
             let ty = res.push_type(Type::Unknown);
@@ -422,7 +426,15 @@ impl TypeChecker {
             self.unify(*span, ctx, var_ty, ty)?;
             // TODO(ed): Make sure the option is void or none - you cannot return otherwise.
             // But this might be caught somewhere else?
-            let (value_ret, value_ty) = self.expression(value, ctx)?;
+            let is_function = matches!(value, E::Function { .. });
+            if is_function {
+                self.defining.push(*var);
+            }
+            let value = self.expression(value, ctx);
+            if is_function {
+                self.defining.pop();
+            }
+            let (value_ret, value_ty) = value?;
             self.unify(*span, ctx, var_ty, value_ty)?;
             Ok(value_ret)
         } else {
@@ -1113,6 +1125,11 @@ impl TypeChecker {
             E::Bool(_, _) => no_ret(self.push_type(Type::Bool)),
             E::Nil(_) => no_ret(self.push_type(Type::Nil)),
         }?;
+        // A function is used at one type inside its own body - the recursive calls have to agree
+        // with the definition.
+        if matches!(expression, E::Read { var, .. } if self.defining.contains(var)) {
+            return with_ret(expr_ret, expr);
+        }
         // TODO[ed]: Don't agressively copy function! D:
         match self.find_type(expr) {
             Type::Function { .. } => with_ret(expr_ret, self.copy(expr)),
